@@ -205,6 +205,34 @@ def handleGasRate (j : Json) : Except String Json := do
   | .error .notImplemented => pure <| Json.mkObj [("error_kind", "NotImplementedError")]
   | .error .undefinedCode => pure <| Json.mkObj [("error_kind", "undefined")]
 
+def lineJson (l : Codec.Line) : Json :=
+  let S := fun (x : List Char) => Json.str (String.ofList x)
+  Json.mkObj [("idx", S l.idx), ("re", Json.arr (l.re.map S).toArray), ("pr", Json.arr (l.pr.map S).toArray),
+    ("a", S l.a), ("b", S l.b), ("c", S l.c), ("tmin", S l.tmin), ("tmax", S l.tmax), ("code", S l.code), ("source", S l.source)]
+
+def parseCodecFmt (s : String) : Except String Codec.Fmt :=
+  match s with
+  | "naunet" => pure .native | "kida" => pure .kida | "umist" => pure .umist | "leeds" => pure .leeds
+  | "uclchem" => pure .uclchem
+  | _ => throw s!"unknown format {s}"
+
+def handleDecode (j : Json) : Except String Json := do
+  let fmt ← parseCodecFmt (← (← j.getObjVal? "fmt").getStr?)
+  let lines ← (← (← j.getObjVal? "lines").getArr?).toList.mapM (·.getStr?)
+  let pseudo ← (← (← j.getObjVal? "pseudo").getArr?).toList.mapM (·.getStr?)
+  match Codec.readFile fmt (lines.map String.toList) with
+  | none => pure <| Json.mkObj [("error", "malformed line")]
+  | some ls =>
+    let sp := fun (xs : List (List Char)) => Json.arr ((Codec.speciesOf (pseudo.map String.toList) xs).map fun x => Json.str (String.ofList x)).toArray
+    pure <| Json.arr (ls.map fun l => Json.mkObj [("line", lineJson l), ("reactants", sp l.re), ("products", sp l.pr)]).toArray
+
+def handleEncodeNative (j : Json) : Except String Json := do
+  let g := fun (k : String) => do pure ((← (← j.getObjVal? k).getStr?).toList)
+  let gl := fun (k : String) => do pure ((← (← (← j.getObjVal? k).getArr?).toList.mapM (·.getStr?)).map String.toList)
+  let l : Codec.Line := { idx := ← g "idx", re := ← gl "re", pr := ← gl "pr", a := ← g "a", b := ← g "b", c := ← g "c",
+                          tmin := ← g "tmin", tmax := ← g "tmax", code := ← g "code", source := ← g "source" }
+  pure (Json.str (String.ofList (Codec.encodeNative l)))
+
 def handle (line : String) : String :=
   match Json.parse line with
   | .error e => (Json.mkObj [("error", s!"json: {e}")]).compress
@@ -218,6 +246,8 @@ def handle (line : String) : String :=
       | "net" => handleNet j
       | "window" => handleWindow j
       | "gasrate" => handleGasRate j
+      | "decode" => handleDecode j
+      | "encode_native" => handleEncodeNative j
       | "kromebound" => handleKrome j
       | "dup" => handleDup j
       | "order" => handleOrder j
